@@ -41,6 +41,8 @@ EarlyClasses(pre) ==
     [] pre \in {"refuseFields", "refuseFieldsClose"} -> <<"nothing", "inStatusLine", "afterStatusLine", "otherInFields", "otherFieldLine", "otherComplete">>
     [] OTHER                -> <<"nothing">>
 
+NoFin == [status |-> 0, resp10 |-> FALSE, cl |-> "absent", te |-> "absent", conn |-> "absent"]
+
 Cap == IF "ReasonCap4" \in Defects THEN 4 ELSE 5
 
 InitImpl(r) ==
@@ -58,7 +60,7 @@ Init ==
   /\ sv \in { p \in PreSet : p \notin {"none", "100"} => (rq.expect /\ BodyDue(rq)) }
   /\ a = InitFlow([method |-> rq.method, ver10 |-> rq.ver10, expect |-> rq.expect, connclose |-> rq.connclose])
   /\ i = InitImpl(rq)
-  /\ env = [earr |-> 1, took100 |-> FALSE, finalSeen |-> FALSE]
+  /\ env = [earr |-> 1, took100 |-> FALSE, finalSeen |-> FALSE, fin |-> NoFin]
   /\ last = [op |-> "init", fails |-> {}]
 
 Alive == i.st \notin {"Dead", "Panicked"}
@@ -216,7 +218,7 @@ RRFinal(f) ==
               e    == [op |-> "try_response", st |-> i.st, kind |-> "final", res |-> IF m = ErrMode THEN "err" ELSE "some",
                        n |-> 40, mlen |-> 40, cell |-> cell, conn |-> f.conn, connclose |-> cc, ready |-> m # ErrMode, fails |-> {}]
           IN /\ Emit(e, ResponseFails(a, e), i2, ResponseUpd(a, e))
-             /\ env' = [env EXCEPT !.finalSeen = m # ErrMode]
+             /\ env' = [env EXCEPT !.finalSeen = m # ErrMode, !.fin = IF m # ErrMode THEN f ELSE @]
   /\ UNCHANGED <<rq, sv>>
 
 RRProceed ==
@@ -321,6 +323,21 @@ BodySentIffNotRefused ==
   /\ i.st = "SendBody" => "Not100" \notin a.facts
 Late100SkippedOnce == a.skipped <= 1
 RedirectIff == i.st = "Redirect" => IsRedirectStatus(i.status)
+
+\* C01 at the level of the model: without a refusal the terminal outcome is a function of the request
+\* and the server's messages alone — whatever the call schedule was (when the caller looked, gave up
+\* waiting for 100, how it split writes and reads, which queries it interleaved)
+ExpectedFacts(f) ==
+       (IF rq.ver10 THEN {"Http10"} ELSE {})
+  \cup (IF rq.connclose THEN {"ClientClose"} ELSE {})
+  \cup (IF f.conn \in {"close", "two"} THEN {"ServerClose"} ELSE {})
+  \cup (IF Modes(CellOf(f)) = {Close} THEN {"CloseDelimited"} ELSE {})
+OutcomeDeterministic ==
+  (i.st = "Cleanup" /\ ~IsRefusal(sv) /\ Cardinality(Modes(CellOf(env.fin))) = 1) =>
+     /\ a.facts = ExpectedFacts(env.fin)
+     /\ a.bodyAsked = BodyDue(rq)
+     /\ (sv = "100" => env.took100)
+     /\ i.status = env.fin.status
 
 (* ------------------------------------------------------------------ edge dump *)
 Key(ii, ee, aa) == ToJson(<<rq, sv, ii, ee, aa>>)
